@@ -777,7 +777,7 @@ def _worker(item):
 def lattice(thorough):
     """(name, T, K, likelihood batch shapes, input batch shapes, event sizes N replayed, seeds)"""
     if not thorough:
-        return [dict(name="t2", T=2, K=3, likb=[(), (2,)], inb=[(), (2,), (3, 2)], sizes=[3], seeds=1)]
+        return [dict(name="t2", T=2, K=3, likb=[(), (2,), (2, 1)], inb=[(), (2,), (3, 2)], sizes=[3], seeds=1)]     # (2, 1): a non-leading unit dimension
     return [dict(name="t2", T=2, K=3, likb=[(), (2,)], inb=[(), (2,), (3, 2)], sizes=[3, 2, 5], seeds=3),
             dict(name="t3", T=3, K=4, likb=[(), (2,), (1,), (2, 1)], inb=[(), (2,), (3, 1), (1,), (2, 2)], sizes=[2, 4], seeds=2),
             dict(name="t1", T=1, K=2, likb=[(), (3,)], inb=[(), (3,), (2, 3)], sizes=[1, 3], seeds=2)]
